@@ -227,8 +227,8 @@ def run(pid, tier):
         # the composed system (Changes x Store x checkpoint file x lock, two invocations in flight, environment edits):
         # checkpoint and store only ever change in steps of the lock holder; readers never see a torn result
         mono = ('CONSTANTS Procs = {1, 2}\n Paths = {"af", "bf"}\n Cfg <- MCCfg\n Comp <- MCComp\n N = 2\n MaxRuns = 2\n'
-                ' MaxCommits = 2\n MaxEdits = 2\nSPECIFICATION Spec\nINVARIANTS AtMostOneHolder ResultShowNeverTorn '
-                'RunCoversAffected AnalyzeNeverMixes\nPROPERTIES MutationsUnderLock\nCHECK_DEADLOCK FALSE\n')
+                ' MaxCommits = 2\n MaxEdits = 2\nSPECIFICATION Spec\nINVARIANTS AtMostOneHolder HolderIsPastLock ResultShowNeverTorn '
+                'RunCoversAffected AnalyzeNeverMixes CheckpointIsSnapshot\nPROPERTIES MutationsUnderLock\nCHECK_DEADLOCK FALSE\n')
         r2 = vlib.tlc("mc/MCMonorail", mono, workers=10, timeout=3000, xmx="20g")
         if r2.violated:
             chk.model_violation("MCMonorail", r2)
@@ -309,11 +309,24 @@ def run(pid, tier):
                         "interval; spawn / kill / exit stamps are taken by the harness on the same clock",
                         "a loser's effect on checkpoint, results and logs is measured as a digest of monorail-out while the holder is "
                         "parked before its first mutation"]
+    # ---- the composed specification (Monorail.tla) stepped through real processes, state compared after every action
+    import session
+    session.stage(chk, bins, pid, 30 if tier == "quick" else 400, 80)
+    chk.assumptions.append("session replay: a mutating invocation is held at hook points by marker files (guarded build); the steps "
+                           "between two hold points are taken as one action of Monorail.tla (CpRead+CpTruncate composed)")
     return chk.finish()
 
 
 def replay(pid, path):
     obj = json.load(open(path))
+    if isinstance(obj.get("replay"), dict) and obj["replay"].get("ev") == "session":
+        import session
+        rc = session.replay_one(pid, obj["replay"])
+        if rc:
+            print("VIOLATION property=%s replay=%s" % (pid, path))
+        else:
+            print("REPLAY: the recorded session behaviour is reproduced by the real system without a mismatch")
+        return rc
     fails, _, _ = vlib.judge("LockJudge", [obj["replay"]], shards=1)
     if fails:
         print("REPLAY: recorded scenario still rejected: %s" % fails[0][1])
